@@ -55,7 +55,7 @@ func genSym(cls, n int, rng *vk.SplitMix) mat {
 		step := 1 + rng.Intn(3)
 		for i := 0; i < n; i++ {
 			for j := 0; j < n; j++ {
-				g.d[i*n+j] = math.Ldexp(g.d[i*n+j], -step*(i+j))
+				g.d[i*n+j] = math.Ldexp(g.d[i*n+j], -gexp(step, i+j, 2*n-2))
 			}
 		}
 		return symmetrize(g)
@@ -130,10 +130,10 @@ func genTridiag(cls, n int, rng *vk.SplitMix) (d, e []float64) {
 		}
 	case 3: // graded
 		for i := range d {
-			d[i] = math.Ldexp(rng.Finite(), -3*i)
+			d[i] = math.Ldexp(rng.Finite(), -gexp(3, i, n))
 		}
 		for i := range e {
-			e[i] = math.Ldexp(rng.Finite(), -3*i-1)
+			e[i] = math.Ldexp(rng.Finite(), -gexp(3, i, n)-1)
 		}
 	case 4: // diagonal
 		for i := range d {
@@ -221,6 +221,10 @@ func scaleVec(x []float64, f float64) []float64 {
 
 // fields: J[0] jobz (0 none, 1 vectors), J[1] uplo, N, Pad[0], LW, Cls, Sc, Wrap
 func checkSyev(c kase) *vk.Failure {
+	return viaDlarft(checkSyevBody(c), c.N)
+}
+
+func checkSyevBody(c kase) *vk.Failure {
 	n := c.N
 	rng := c.rng(1)
 	a0 := genSym(c.Cls, n, rng)
@@ -364,6 +368,10 @@ func symQ(uplo blas.Uplo, ar mat, tau []float64) mat {
 // fields: J[0] 0 Dsytrd 1 Dsytd2, J[1] uplo, N, Pad[0] (lda), Pad[1] (lda of
 // Dorgtr), LW, Cls
 func checkSytrd(c kase) *vk.Failure {
+	return viaDlarft(checkSytrdBody(c), c.N)
+}
+
+func checkSytrdBody(c kase) *vk.Failure {
 	n := c.N
 	rng := c.rng(2)
 	a0 := genSym(c.Cls, n, rng).scaled(pow2(c.Sc))
@@ -634,11 +642,15 @@ func checkLaev2(c s2Case) *vk.Failure {
 	e1, e2 := impl.Dlae2(a*s, b*s, cc*s)
 	rt1, rt2, e1, e2 = rt1/s, rt2/s, e1/s, e2/s
 	nrm := nrm2([]float64{a, b, b, cc})
-	tol := 16 * eps * nrm
-	if math.Abs(rt1) < math.Abs(rt2) {
+	tol := 16*eps*nrm + 0x1p-1070/s // relative bound plus a few quanta of the subnormal range
+	// Oracle correction: "rt1 is the eigenvalue of larger absolute value" holds up
+	// to the rounding of the two values (Dlaev2(1, 0, 1.0000000000000002) returns
+	// rt1 = 1, rt2 = 1.0000000000000002); every caller sorts afterwards, so only an
+	// ordering error beyond a few ulps is a failure here.
+	if math.Abs(rt1) < math.Abs(rt2)*(1-8*eps) {
 		return vk.Failf("rt1-not-larger", "Dlaev2(%v,%v,%v): |rt1|=%v < |rt2|=%v", a, b, cc, rt1, rt2)
 	}
-	if math.Abs(e1) < math.Abs(e2) {
+	if math.Abs(e1) < math.Abs(e2)*(1-8*eps) {
 		return vk.Failf("dlae2-rt1-not-larger", "Dlae2(%v,%v,%v): |rt1|=%v < |rt2|=%v", a, b, cc, e1, e2)
 	}
 	if math.Abs(e1-rt1) > tol || math.Abs(e2-rt2) > tol {
@@ -665,8 +677,20 @@ func TestLaev2(t *testing.T) {
 	vk.Run(t, "laev2", vk.Opts{Quick: 3000, Thorough: 200000, NoCrumb: true}, func(t *rapid.T) s2Case {
 		g := vk.FiniteGen()
 		c := s2Case{A: vk.F(g.Draw(t, "a")), B: vk.F(g.Draw(t, "b")), C: vk.F(g.Draw(t, "c"))}
-		if rapid.IntRange(0, 5).Draw(t, "tiny") == 0 {
+		switch rapid.IntRange(0, 7).Draw(t, "tiny") {
+		case 0:
 			c.B = vk.F(float64(c.B) * 1e-12)
+		case 1, 2:
+			// a and c (or a and -c) a few ulps apart, b negligible or zero
+			h := float64(c.A)
+			for k := rapid.IntRange(0, 4).Draw(t, "ulps"); k > 0; k-- {
+				h = math.Nextafter(h, math.Inf(1))
+			}
+			if rapid.Bool().Draw(t, "neg") {
+				h = -h
+			}
+			c.C = vk.F(h)
+			c.B = vk.F(rapid.SampledFrom([]float64{0, 1e-20, 1e-9, -1e-8}).Draw(t, "bsmall"))
 		}
 		c.Sc = rapid.SampledFrom([]int{0, 0, 400, -400}).Draw(t, "sc")
 		return c
